@@ -15,6 +15,16 @@ type spec struct {
 	N    int
 	Out  [][]int // Out[i] = files imported by fi, ascending (the order of the import statements)
 	Pkgs []string
+	// Hollow[i]: file i declares nothing - it consists of import statements only (an "index file"); nil = no such file
+	Hollow []bool
+}
+
+func (s *spec) hollow(i int) bool { return s.Hollow != nil && s.Hollow[i] }
+
+func (s *spec) withHollow(i int) *spec {
+	h := make([]bool, s.N)
+	h[i] = true
+	return &spec{N: s.N, Out: s.Out, Pkgs: s.Pkgs, Hollow: h}
 }
 
 func newSpec(n int) *spec {
@@ -64,7 +74,7 @@ func (s *spec) edgeString() string {
 }
 
 func (s *spec) withPkgs(p []string) *spec {
-	return &spec{N: s.N, Out: s.Out, Pkgs: p}
+	return &spec{N: s.N, Out: s.Out, Pkgs: p, Hollow: s.Hollow}
 }
 
 // pkgAssignments enumerates EVERY assignment of go_package values to n files up to renaming:
